@@ -56,6 +56,17 @@ def run_func(repo, qual, env, file=FILE, extra_imports=None):
     saved = {k: modenv[k] for k in shadow if k in modenv}
     missing = [k for k in shadow if k not in modenv]
     modenv.update(shadow)
+    # ... and by the helpers in private modules of the package the body may delegate to: a fake that stands for a standard-library
+    # module (`shutil`, `tempfile`, `subprocess`) stands for it in every module that imports it under the same name
+    others = []
+    for rel_ in getattr(repo, "extra_files", ()):
+        if rel_ == file:
+            continue
+        names_ = {al.asname or al.name for st_ in repo.tree[rel_].body if isinstance(st_, ast.Import) for al in st_.names} & set(shadow)
+        if names_:
+            oenv = _PKG[id(repo)].env(rel_)
+            others.append((oenv, {k: oenv[k] for k in names_ if k in oenv}, [k for k in names_ if k not in oenv]))
+            oenv.update({k: shadow[k] for k in names_})
     e = dict(modenv)
     e.update(env)
     imp = dict(IMPORTS)
@@ -74,6 +85,10 @@ def run_func(repo, qual, env, file=FILE, extra_imports=None):
         for k in missing:
             modenv.pop(k, None)
         modenv.update(saved)
+        for oenv, osaved, omissing in others:
+            for k in omissing:
+                oenv.pop(k, None)
+            oenv.update(osaved)
     if isinstance(r, tuple):
         return r
     return ("return", None)
